@@ -85,7 +85,7 @@ def plane_transform_rule(cx):
     b = cx.fn('geom3::plane3::Plane3::transform_by')
     if b:
         cx.expect('KIND', 'Plane3::transform_by', cx.retval(b),
-                  '(call *Plane3::from (call *SurfacePoint::transformed (call *SurfacePoint::new (call T::into (call Matrix::mul (self normal) (self d))) (self normal)) (param iso)))',
+                  '(call *Plane3::from (call *SurfacePoint::transformed (call *SurfacePoint::new (or (call T::into (call Matrix::mul (self normal) (self d))) (call OPoint::from (call Matrix::mul (self normal) (self d)))) (self normal)) (param iso)))',
                   'the plane is re-derived from its representative point normal*d and its normal, both moved by the same isometry', where=b.file)
         no_projections(cx, b, 'iso', 'Plane3::transform_by')
 
